@@ -316,6 +316,7 @@ def run_case(case):
         viol.append((sig, d))
 
     texts = {}
+    errnos = {}
 
     def go():
         seen = world.capture()
@@ -349,6 +350,10 @@ def run_case(case):
                             # change what the exception says before the next action reports it
                             e.args = ("changed at level %d" % i,)
                             e.errno_like = i
+                            if isinstance(e, OSError):
+                                # ... and what its (built-in) extractor reads
+                                e.errno = 100 + i
+                                errnos[i] = e.errno
                             texts[i] = _text(e)
                             raise
                     else:
@@ -460,6 +465,7 @@ def run_case(case):
         return list(seen), raised[0]
 
     original_text = None
+    original_errno = getattr(RAISES[ri]() if RAISES[ri] is not None else None, 'errno', None)
     if RAISES[ri] is not None:
         try:
             original_text = _text(RAISES[ri]())
@@ -507,6 +513,9 @@ def run_case(case):
                     want["reason"] = texts[i]
                 if want["reason"] is None:
                     want["reason"] = got_end.get("reason") if isinstance(got_end.get("reason"), str) else "<some text>"
+                if "errno" in want:
+                    # likewise the attribute the extractor reads: as it was when *this* action failed
+                    want["errno"] = original_errno if i == depth - 1 else errnos.get(i, want["errno"])
             if got_end != want:
                 bad("failed-end-fields", level=i, got=got_end, want=want)
             if ext_raises:
